@@ -307,6 +307,10 @@ def execute(case):
           elif m % 3 == 1:
             single = verdict
             call = lambda: n.rebind({idx: pg.Insertion(v)})
+          elif m == 5 and L >= 2:
+            # several deletions in one batch (each alone may be legal, together they may go below min_size)
+            dels = {x % L: pg.MISSING_VALUE for x in (idx, idx + 1 + ch.pick(2), idx + 2 + ch.pick(3))}
+            call = lambda: n.rebind(dels, raise_on_no_change=False)
           else:
             call = lambda: n.rebind({idx: pg.MISSING_VALUE}, raise_on_no_change=False)
       elif name in DICT_OPS:
